@@ -1,10 +1,10 @@
 package sim
 
 import (
-	"sort"
 	"container/heap"
 	"fmt"
 	"os"
+	"sort"
 	"time"
 
 	kcp "github.com/xtaci/kcp-go/v5"
